@@ -25,7 +25,8 @@ def run(ctx):
             env["EPSILON"] = eps_env
         if prec_env:
             env["NUMERIC_PRECISION"] = prec_env
-        cases = [gen_numeric.probe_case(1000 * ci + 1, EPS_VAL[eps_const], mags)]
+        cases = [gen_numeric.probe_case(1000 * ci + 1, EPS_VAL[eps_const], mags),
+                 gen_numeric.big_probe_case(1000 * ci + 2, EPS_VAL[eps_const])]
         for i in range(40 if quick else 800):
             cases.append(gen_numeric.deep_case(ctx.seed, 1000000 * (ci + 1) + i))
         for i in range(30 if quick else 600):
@@ -36,6 +37,8 @@ def run(ctx):
             h = json.loads(line)
             for e in h["ev"]:
                 if e["c"] == "IsApplicable" and e["act"].startswith(("c_", "r_")):
+                    n_probe += 1
+                if e["c"] == "CmpProbe":
                     n_probe += 1
                 if e["c"] == "PrintExpr" and "texts" in e["out"]:
                     for t in e["out"]["texts"]:
@@ -48,7 +51,7 @@ def run(ctx):
     ctx.rule = ("M: every expression tree to depth 2 x 16 valuations (stack-machine evaluation refines Eval; operand-order laws) "
                 "and 225 comparison probes; V per configuration (EPSILON default/0.01/0.25, NUMERIC_PRECISION default/2/6, one "
                 "driver process each): one-condition actions on value pairs 0,1,2,4 half-tolerances apart (both orders, all five "
-                "operators) at magnitudes up to 10^5..10^6; random actions with expression trees to depth 4 (applicability and "
+                "operators) at magnitudes up to 10^5..10^6, and as mixed numbers (translation-invariant comparison) at 10^6..10^9; random actions with expression trees to depth 4 (applicability and "
                 "assign/increase/decrease successors); actions with constants of up to 5 decimals printed with 0..6 decimals and "
                 "with the configured default, re-read by the library and by the independent reader. distinct_nontrivial = "
                 "distinct (digits, printed expression) pairs")
